@@ -176,7 +176,13 @@ class CHECK(Check):
                  "correspondence with MetricFrame.group_min/group_max/difference/ratio; the BODIES of apply_grouping/difference/"
                  "ratio are symbolically executed by lifters/aggregate_gen.py into Generated/AggregateGen.lean (compositions of "
                  "the pandas-level primitives of Model/AggregatePrim.lean) and proved equal to the model; multi-metric frames "
-                 "(Model/AggregateFrame.lean, row-major DataFrames) are proved column-wise equal to the single-metric model")
+                 "(Model/AggregateFrame.lean, row-major DataFrames) are proved column-wise equal to the single-metric model; "
+                 "the RESULT CACHE of MetricFrame (_populate_results / _group: which (method, errors) each slot is computed with, the "
+                 "no_control_levels flag) and the defaults / cache path of group_min, group_max, difference, ratio are symbolically "
+                 "executed by lifters/populate.py into Generated/PopulateSrc.lean, interpreted by Model/AggregateCache.lean together "
+                 "with the lifted _extract_result (driver op aggc.eval) and proved equal to the model (src_populate_eq_model, "
+                 "src_group_min/group_max/difference/ratio_eq_model, src_cache_explicit_calls, src_cache_default_calls, "
+                 "src_extract_documented)")
     level_text = ("Theorems (all tables, any number of strata/groups, NaN cells): group_min/max are attained lower/upper bounds "
                   "of the non-NaN groups; difference(between)=max-min; difference(to_overall)=max|v-o|; ratio(between)=min/max "
                   "(IEEE division); ratio(to_overall)=min ratio_sub_one(v/o) with ratio_sub_one r = min(r,1/r) for r>=0; "
@@ -212,6 +218,9 @@ class CHECK(Check):
             "1..4 groups per stratum, NaN cells, all-NaN strata, 27% with non-scalar cells in by_group and/or overall of one "
             "column): the whole frame goes through the driver op aggf.eval and all 12 aggregates are compared column by "
             "column, including which calls raise. "
+            "On every case the four accessors are ALSO called with errors= and/or method= left out (12 more calls) and must equal "
+            "the call with the documented default (C02.default_args); on frames whose non-scalar by_group cells have to be compared "
+            "errors='raise' must raise (C02.raise_raises_on_nonscalar). "
             "thorough: ALL tables over {0,1/2,1,-1,nan} with <= 4 groups x <= 2 strata and overall in {0,1/2,1,-1}")
     explanation = ("oracle = the documented formulas evaluated exactly (Fractions, IEEE rules for x/0) on the implementation's own "
                    "by_group/overall; tolerance 1e-12 * max(1,|exact|) (measured max deviation of the implementation from the exact value on the clean tree: "
@@ -225,7 +234,11 @@ class CHECK(Check):
                "column, alignment on the control levels, an exception in one column aborts the call; object-dtype behaviour "
                "(when a reduction over non-scalar cells raises) is an observed rule, compared only on frames where every "
                "non-scalar by_group cell shares its (stratum, column) with another non-NaN cell and every stratum has >= 2 rows",
-               "lifters/aggregate_gen.py: symbolic execution of the three method bodies into the primitives of Model/AggregatePrim.lean")
+               "lifters/aggregate_gen.py: symbolic execution of the three method bodies into the primitives of Model/AggregatePrim.lean",
+               "lifters/populate.py: symbolic execution of _populate_results / _group and of the four accessors; pinned (refused "
+               "otherwise), not modelled: every cache store sits in try/except Exception that stores the exception under the same "
+               "path, _none_to_nan (identity on the modelled values) wraps the difference / ratio results, the accessors re-raise a "
+               "stored exception and return anything else unchanged")
     assumptions = ("metric values are finite or NaN (no +-inf cells, no -0.0)", "sample weights are positive")
 
     def __init__(self):
